@@ -317,6 +317,11 @@ def check_ring(pid, tier, t0):
         u = run_unit('ring-nofault-%s' % tier, scs)
     rs = random_scenarios(tier, fault_prop)
     ur = run_unit('rand-%s-%s-%d' % ('fault' if fault_prop else 'nofault', tier, seed()), rs)
+    hist_units = []
+    if not fault_prop:
+        # multi-call behaviours of L1 from new() (TLC simulation, history mode), replayed like the one-shot ones
+        hs, hstats = history_scenarios(tier)
+        hist_units.append(run_unit('ring-history-%s-%d' % (tier, seed()), hs))
     rel = [s for s in scs if want(set(s['tags']), {'evs': [{'op': s['first_op']}]})]
     cov = l1_cov(stats)
     cov['random_histories'] = {'scenarios': len(rs), 'capacities': RAND_NS, 'length': 80, 'seed': seed(),
@@ -327,7 +332,9 @@ def check_ring(pid, tier, t0):
     cov['scenario_tags'] = tag_hist(rel)
     cov['scenarios_exercising_this_property'] = len(rel)
     cov['scenarios_in_unit'] = len(scs)
-    units = [u, ur]
+    units = [u, ur] + hist_units
+    if hist_units:
+        cov['l1_histories'] = [{k: st[k] for k in ('n', 'behaviours_simulated', 'scenarios', 'calls_per_behaviour', 'states', 'seed')} for st in hstats]
     if pid == 'C10':
         # forgotten drains also occur in the random histories with faults
         rf = random_scenarios(tier, True)
@@ -404,6 +411,16 @@ def crate_config_builds():
                 r.update(ok=False, why='the library links against %s in this configuration' % ', '.join([d for d in bad if d in ('std', 'alloc')] or bad[:3]))
         res.append(r)
     return res
+
+
+def history_scenarios(tier):
+    out, stats = [], []
+    for n in ([2, 3, 4] if tier == 'quick' else [1, 2, 3, 4, 5]):
+        raw, st = scen.hist_raw(n, 12 if tier == 'quick' else 150, seed() * 100 + n)
+        stats.append(st)
+        for k, r in enumerate(scen.load_raw(raw)):
+            out.append(scen.build(r, 'h%d-%d' % (n, k)))
+    return out, stats
 
 
 RAND_NS = [1, 2, 3, 5, 8, 16, 33]
@@ -763,6 +780,10 @@ def setup(argv):
             for res in ex.map(ring_raws, [n for n in ns if n > 4]):
                 for raw, st in res:
                     log('Ring.tla N=%d %s: %d states, %d scenarios (%.0fs)' % (st['n'], ','.join(st['families']), st['states'], st['scenarios'], st['wall_s']))
+    hs, hstats = history_scenarios('thorough' if '--thorough' in argv else 'quick')
+    for st in hstats:
+        log('Ring.tla N=%d history mode: %d behaviours of %d calls simulated, %d scenarios, refinement holds (%.0fs)'
+            % (st['n'], st['behaviours_simulated'], st['calls_per_behaviour'], st['scenarios'], st['wall_s']))
     for n in range(0, 6):
         r = scen.reach(n)
         if r['reachable_layouts'] != r['all_layouts']:
